@@ -466,6 +466,9 @@ func c09Genuine(c *Ctx) []genuineMsg {
 	lq.Destination = sloURL
 	lq.NameID = sp2("user0@example.com")
 	mk("logout-request-signed", lq, 1, nil)
+	for _, m := range out {
+		noteDoc("c09-genuine:"+m.name, m.raw) // xmltok.go: the tokenizer model is compared on what this stream presents
+	}
 	return out
 }
 
@@ -566,6 +569,7 @@ func runC09Shapes(c *Ctx) {
 	}
 	for _, s := range shapes {
 		c.Count("shape:" + s.name)
+		noteDoc("c09-shape:"+s.name, []byte(s.xml))
 		c.Eval(true, "shape|"+s.name)
 		c.Rep.Evaluations--
 		sweepAll(c, w, b64([]byte(s.xml)), "shape", s.name, nil)
